@@ -63,7 +63,24 @@ func srcHash(w *World, fn *ssa.Function) (string, string) {
 }
 
 func (w *World) verifyFunction(pi *PkgInfo, fn *ssa.Function, c *Contract) (res *UnitResult) {
+	res = w.verifyFunctionPass(pi, fn, c, nil)
+	if res.unit != nil && res.unit.usedStructAppend && len(res.SpecErrs) == 0 {
+		// second pass: struct appends copy only the families the first pass touched anywhere
+		rel := map[string]bool{}
+		for f := range res.unit.famSort {
+			rel[f] = true
+		}
+		delete(w.usedContracts, res.unit)
+		res2 := w.verifyFunctionPass(pi, fn, c, rel)
+		res2.Assumes = append(res2.Assumes, "append of struct elements copies only the field families that the function or its contract mentions (others unconstrained)")
+		return res2
+	}
+	return res
+}
+
+func (w *World) verifyFunctionPass(pi *PkgInfo, fn *ssa.Function, c *Contract, relevant map[string]bool) (res *UnitResult) {
 	u := w.newUnit(pi, fn, c)
+	u.relevant = relevant
 	res = &UnitResult{Name: u.unitName(), Func: funcKey(fn), Pkg: pi.path, Props: c.Props, ctx: u.ctx, unit: u}
 	res.SrcHash, res.Pos = srcHash(w, fn)
 	if c.Trusted || c.Opaque || fn.Blocks == nil {
@@ -99,11 +116,20 @@ func (w *World) verifyFunction(pi *PkgInfo, fn *ssa.Function, c *Contract) (res 
 		st.Names[p.Name()] = nameRef{V: v}
 		u.assumeResultOld(st, v)
 	}
+	var fvCells []Term
 	for _, fv := range fn.FreeVars {
 		v := u.namedFreshValue(fv.Type(), "fv_"+fv.Name())
 		st.Env[fv] = v
 		st.Names[fv.Name()] = nameRef{V: v, IsAddr: true}
 		u.assumeResultOld(st, v)
+		if sc, ok := v.(Sc); ok {
+			// captured-variable cells are real, pairwise distinct objects
+			u.ctx.Assert(And(Cmp(">", sc.T, TZero), Eq(app("objof", SInt, sc.T), sc.T)), "free-variable cell")
+			for _, prev := range fvCells {
+				u.ctx.Assert(Neq(sc.T, prev), "free-variable cells distinct")
+			}
+			fvCells = append(fvCells, sc.T)
+		}
 	}
 	u.pre = st.Clone()
 	fr.entry = u.pre
@@ -123,6 +149,10 @@ func (w *World) verifyFunction(pi *PkgInfo, fn *ssa.Function, c *Contract) (res 
 	for _, rq := range c.Requires {
 		t := u.evalSpecBool(fr, st, rq)
 		u.ctx.Assert(t, "requires: "+rq.Text)
+	}
+	if c.Decreases != nil {
+		m := u.ctx.Named("measure", u.evalSpecTerm(fr, st, *c.Decreases))
+		u.measure0 = &m
 	}
 	u.cover(st, "preconditions (and axioms) are satisfiable", fn.Pos())
 	// body
@@ -262,6 +292,17 @@ func (u *Unit) frameObligations(fr *frame, final *State) {
 		}
 		var body Term
 		same := Eq(Select(fin, p), Select(pre, p))
+		if strings.HasPrefix(fam, "MV:") {
+			// observational: values are compared on the (pre-state) domain only; the domain itself is framed by the MD: family
+			dfam := "MD:" + strings.TrimPrefix(fam, "MV:")
+			if k := strings.Index(dfam, "#"); k >= 0 {
+				dfam = dfam[:k]
+			}
+			inner := arrVal(sortv)
+			ks := arrKey(inner)
+			dpre := u.viewGet(u.pre.View(), dfam, ArrSort(SInt, ArrSort(ks, SBool)))
+			same = Term{fmt.Sprintf("(forall ((k!obs %s)) (=> (select (select %s p!frame) k!obs) (= (select (select %s p!frame) k!obs) (select (select %s p!frame) k!obs))))", ks, dpre.S, fin.S, pre.S), SBool}
+		}
 		if len(keyed) > 0 {
 			inner := arrVal(sortv)
 			ks := arrKey(inner)
@@ -277,7 +318,7 @@ func (u *Unit) frameObligations(fr *frame, final *State) {
 				same = Ite(Eq(p, idx), kq, same)
 			}
 		}
-		body = Implies(And(Cmp("<", app("objof", SInt, p), alloc0), Cmp(">=", p, TZero)), Or(append(exc, same)...))
+		body = Implies(And(Cmp("<", app("objof", SInt, p), alloc0), Cmp(">", p, TZero)), Or(append(exc, same)...))
 		goal := Term{fmt.Sprintf("(forall ((p!frame Int)) %s)", body.S), SBool}
 		u.oblige(final, "frame", "only the locations in 'modifies' change in family "+fam, u.fn.Pos(), goal, sanitize(fam))
 	}
